@@ -59,7 +59,7 @@ def plan(tier):
 
 
 def required_regimes(tier):
-    need = {'form:2', 'form:4', 'analysis', 'synthesis', 'size:odd', 'size:h!=w'}
+    need = {'form:2', 'form:4', 'analysis', 'synthesis', 'size:odd', 'size:h!=w', 'channels:2'}
     for m in MODES:
         need.add('mode:' + m)
     need |= {'periodization:short', 'zero:short', 'symmetric:short'}
@@ -123,6 +123,26 @@ def run(item):
                 if d is not None:
                     res.violation('afb2d_nonsep_vs_afb2d', cfg, d, tags)
                 res.op(yn5.reshape(P, -1))
+        # two channels at once: channel 1 carries the impulses in reverse order (grouped-convolution weight stacking)
+        if P <= 144 and Lc * Lr <= 144:
+            X2 = torch.cat([X, X.flip(0)], dim=1)
+            try:
+                a2 = lowlevel.afb2d(X2, fa, mode=mode)
+                n2 = lowlevel.afb2d_nonsep(X2, fa, mode=mode)
+                res['impl_calls'] += 1
+                res['evals'] += P
+                res.regime('channels:2')
+                d = cmp_mats(n2.reshape(P, -1).numpy(), a2.reshape(P, -1).numpy()) if n2.numel() == a2.numel() else {'kind': 'shape'}
+                if d is not None:
+                    res.violation('afb2d_nonsep_vs_afb2d', dict(cfg, channels=2), d, tags)
+                c2 = a2.reshape(P, 2, 4, a2.shape[-2], a2.shape[-1])
+                z2 = lowlevel.sfb2d(c2[:, :, 0], c2[:, :, 1], c2[:, :, 2], c2[:, :, 3], fs, mode=mode)
+                zn2 = lowlevel.sfb2d_nonsep(c2, fs, mode=mode)
+                d = cmp_mats(zn2.reshape(P, -1).numpy(), z2.reshape(P, -1).numpy()) if zn2.shape == z2.shape else {'kind': 'shape'}
+                if d is not None:
+                    res.violation('sfb2d_nonsep_vs_sfb2d', dict(cfg, channels=2), d, tags)
+            except Exception as e:
+                res.violation('afb2d_nonsep_vs_afb2d', dict(cfg, channels=2), {'kind': 'raise', 'exc': repr(e)[:200]}, tags)
         # synthesis on the complete coefficient basis of the analysis output shape
         hh, ww = int(ys.shape[-2]), int(ys.shape[-1])
         Q = 4 * hh * ww
